@@ -521,7 +521,7 @@ def const(ctx: Any) -> List[Ob]:
             oc_q, und_q = fd.run_paths(prog, rq.module, cfg_q, atoms_q, eff_d, start=lt_q[0], stop=lambda n: n is lt_q[0], init_locals={roles['delay']: 200}, loop_bound=1)
             seen_d = sorted({x[1] for t in oc_q for x in t if isinstance(x, tuple) and x[0] == 'DELAY'}, key=str)
             good_d = bool(seen_d) and all(isinstance(v, (int, float)) and v >= k for v in seen_d)
-            obs.append(ob(R, rq, nxt[0], 'a round that asks a QM question sets the next query at least the duplicate-question interval (999 ms, plus jitter) ahead', good_d, f'delay in force when the next-query time is set in a QM round that began with the initial 200 ms: {seen_d} (the raise to {k} comes after the computation, so the query after the first QM query follows it by 220-320 ms)'))
+            obs.append(ob(R, rq, 'QM round: delay in force when the next-query time is set', 'a round that asks a QM question sets the next query at least the duplicate-question interval (999 ms, plus jitter) ahead', good_d, f'delay in force when the next-query time is set in a QM round that began with the initial 200 ms: {seen_d} (the raise to {k} comes after the computation, so the query after the first QM query follows it by 220-320 ms)'))
     rd = prog.func('zeroconf._services.info.ServiceInfo._get_random_delay')
     c = [x for x in walk_local_ordered(rd.node) if isinstance(x, ast.Call) and call_name(x) == 'randint']
     obs.append(ob(R, rd, c[0] if c else 'randint', 'the jitter is drawn from the 20-120 ms interval', len(c) == 1 and isinstance(c[0].args[0], ast.Starred) and norm(c[0].args[0].value) == '_AVOID_SYNC_DELAY_RANDOM_INTERVAL' and tuple(iv) == (20, 120)))
